@@ -20,12 +20,12 @@ theorem findArch_sound : ∀ {as : List Arch} {m : List Comp} {ai : Nat},
       obtain ⟨a', h1, h2⟩ := findArch_sound hf
       exact ⟨a', by simpa using h1, h2⟩
 
-theorem getArch_ok {s s1 : State} {m : List Comp} {aj : Nat} (h : Inv s)
-    (hg : s.getArch m = .ok (s1, aj)) :
+theorem getArchClosed_ok {s s1 : State} {m : List Comp} {aj : Nat} (h : Inv s)
+    (hg : s.getArchClosed m = .ok (s1, aj)) :
     Inv s1 ∧ (∃ a, s1.archs[aj]? = some a ∧ a.mask = m) ∧ s1.nextEnt = s.nextEnt ∧
     (∀ (x : Nat) (a : Arch), s.archs[x]? = some a → s1.archs[x]? = some a) ∧
     (∀ e, NotPresent s e → NotPresent s1 e) := by
-  unfold State.getArch at hg
+  unfold State.getArchClosed at hg
   cases hf : findArch s.archs m with
   | some ai =>
     simp only [hf, Except.ok.injEq, Prod.mk.injEq] at hg
@@ -103,8 +103,14 @@ theorem getArch_ok {s s1 : State} {m : List Comp} {aj : Nat} (h : Inv s)
         · exact hnp x a i hx hr
         · exact hnorow hn hr
 
-theorem moveTo_inv {s : State} (h : Inv s) {ai i : Nat} {a0 : Arch} {e : Ent} (m : List Comp)
-    (ha0 : s.archs[ai]? = some a0) (he : a0.ents[i]? = some e) : Inv (s.moveTo ai i e m).1 := by
+theorem getArch_ok {s s1 : State} {m : List Comp} {aj : Nat} (h : Inv s)
+    (hg : s.getArch m = .ok (s1, aj)) :
+    Inv s1 ∧ (∃ a, s1.archs[aj]? = some a ∧ a.mask = closeMask s.deps m) ∧ s1.nextEnt = s.nextEnt ∧
+    (∀ (x : Nat) (a : Arch), s.archs[x]? = some a → s1.archs[x]? = some a) ∧
+    (∀ e, NotPresent s e → NotPresent s1 e) := getArchClosed_ok h hg
+
+theorem moveTo_inv {s : State} (h : Inv s) {ai i : Nat} {a0 : Arch} {e : Ent} (m : List Comp) (same : Out)
+    (ha0 : s.archs[ai]? = some a0) (he : a0.ents[i]? = some e) : Inv (s.moveTo ai i e m same).1 := by
   unfold State.moveTo
   cases hg : s.getArch m with
   | error p => obtain ⟨mx, mn⟩ := p; exact h
@@ -116,7 +122,10 @@ theorem moveTo_inv {s : State} (h : Inv s) {ai i : Nat} {a0 : Arch} {e : Ent} (m
     obtain ⟨b, hb⟩ := hkeep2 aj aj0 haj
     have hfr : e < (s1.depart ai i).nextEnt := by
       rw [hn2]; exact h1.fresh ai a0 i e ha1 he
-    exact arrive_inv h2 hb hnp hfr
+    simp only
+    split
+    · exact h1
+    · exact arrive_inv h2 hb hnp hfr
 
 theorem step_inv {s : State} (h : Inv s) (op : Op) : Inv (s.step op).1 := by
   cases op with
@@ -176,9 +185,7 @@ theorem step_inv {s : State} (h : Inv s) (op : Op) : Inv (s.step op).1 := by
       obtain ⟨ai, i⟩ := p
       obtain ⟨a, ha, he⟩ := locate_sound hl
       simp only [ha]
-      split
-      · exact h
-      · exact moveTo_inv h _ ha he
+      exact moveTo_inv h _ _ ha he
   | remove e c =>
     simp only [State.step]
     cases hl : locate s.archs e with
@@ -188,7 +195,7 @@ theorem step_inv {s : State} (h : Inv s) (op : Op) : Inv (s.step op).1 := by
       obtain ⟨a, ha, he⟩ := locate_sound hl
       simp only [ha]
       split
-      · exact moveTo_inv h _ ha he
+      · exact moveTo_inv h _ _ ha he
       · exact h
   | destroyNow e =>
     simp only [State.step]
@@ -206,6 +213,9 @@ theorem step_inv {s : State} (h : Inv s) (op : Op) : Inv (s.step op).1 := by
       exact ⟨h.live, Nat.pos_of_ne_zero hn, h.csPos, h.uniq, h.fresh, h.lastLt, h.gstLe, h.cstLe,
         h.pend, h.touch, h.touchNone⟩
   | addFn m mn mx =>
+    exact ⟨h.live, h.dfltPos, h.csPos, h.uniq, h.fresh, h.lastLt, h.gstLe, h.cstLe,
+      h.pend, h.touch, h.touchNone⟩
+  | addDep c ds =>
     exact ⟨h.live, h.dfltPos, h.csPos, h.uniq, h.fresh, h.lastLt, h.gstLe, h.cstLe,
       h.pend, h.touch, h.touchNone⟩
 
